@@ -11,9 +11,11 @@ package main
 // the Go runtime turns into an unrecoverable stack overflow).
 
 import (
+	"bufio"
 	"bytes"
 	"encoding/json"
 	"fmt"
+	"io"
 	"math"
 	"os"
 	"os/exec"
@@ -218,13 +220,41 @@ func configCanon(in configIn) configAConfig {
 	return a
 }
 
+// Ids: the abstract id n > 0 stands for the string configIdText(prefix, n); distinct n give
+// distinct strings, but n = 4k+1 .. 4k+4 differ only in letter case, surrounding blanks or
+// unusual trailing characters ("c0", "C0", " c0 ", "c0.ä/#"), so that a component that
+// normalises ids (trims, lower-cases, splits) disagrees with the validator's exact comparison.
+func configIdText(prefix string, n int) string {
+	base := prefix + strconv.Itoa((n-1)/4)
+	switch (n - 1) % 4 {
+	case 0:
+		return base
+	case 1:
+		return strings.ToUpper(prefix) + strconv.Itoa((n-1)/4)
+	case 2:
+		return " " + base + " "
+	default:
+		return base + ".ä/#"
+	}
+}
+
 func configParseId(prefix, s string) int {
 	if s == "" {
 		return 0
 	}
-	if strings.HasPrefix(s, prefix) {
-		if n, err := strconv.Atoi(s[len(prefix):]); err == nil && n > 0 {
-			return n
+	variant := 0
+	t := s
+	switch {
+	case strings.HasSuffix(t, ".ä/#"):
+		variant, t = 3, strings.TrimSuffix(t, ".ä/#")
+	case len(t) >= 2 && strings.HasPrefix(t, " ") && strings.HasSuffix(t, " "):
+		variant, t = 2, t[1:len(t)-1]
+	case strings.HasPrefix(t, strings.ToUpper(prefix)):
+		variant, t = 1, prefix+t[len(prefix):]
+	}
+	if strings.HasPrefix(t, prefix) {
+		if k, err := strconv.Atoi(t[len(prefix):]); err == nil && k >= 0 && strconv.Itoa(k) == t[len(prefix):] {
+			return 4*k + variant + 1
 		}
 	}
 	return -1
@@ -380,11 +410,17 @@ func configCoqConfig(a configAConfig) string {
 }
 
 // ---------------------------------------------------------------- YAML rendering
+// configIdStr: YAML scalar for id n (0 = the empty string, only reachable for list members;
+// scalar keys are omitted instead). Everything but the plain spelling is double-quoted.
 func configIdStr(prefix string, n int) string {
 	if n == 0 {
-		return `""` // the empty string (only reachable for list members; scalar keys are omitted instead)
+		return `""`
 	}
-	return prefix + strconv.Itoa(n)
+	t := configIdText(prefix, n)
+	if (n-1)%4 == 0 {
+		return t
+	}
+	return strconv.Quote(t)
 }
 
 func configRenderYaml(in configIn, work string) string {
@@ -820,108 +856,234 @@ func configRunFan(work string, o *configLiveObjs, idx int) int {
 	return 0
 }
 
-// graph of the decoded AST, every definition of an id contributing its edges: does a cycle exist?
-func configAstHasCycle(a configAConfig) bool {
-	adj := map[int][]int{}
-	for _, c := range a.Curves {
-		if c.Func != nil {
-			adj[c.Id] = append(adj[c.Id], c.Func.Curves...)
-		}
-	}
-	color := map[int]int{}
-	var visit func(u int) bool
-	visit = func(u int) bool {
-		color[u] = 1
-		for _, v := range adj[u] {
-			if color[v] == 1 {
-				return true
-			}
-			if color[v] == 0 && visit(v) {
-				return true
-			}
-		}
-		color[u] = 2
-		return false
-	}
-	for u := range adj {
-		if color[u] == 0 && visit(u) {
-			return true
-		}
-	}
-	return false
-}
-
-// child process: load the YAML again, instantiate, evaluate exactly one target.
-// exit 0 = returned, 10 = panic; a stack overflow aborts the process (exit 2).
+// ---------------------------------------------------------------- the worker process
+// Endless recursion ends in a stack overflow, which the Go runtime does not let a
+// program recover from.  Every accepted configuration is therefore instantiated and
+// run in a persistent worker process (this binary, driver `config_worker`): it loads
+// the same YAML file through the real loader, runs the real Validate on its own
+// CurrentConfig, instantiates from that same in-memory configuration and reports
+// target by target on stdout.  When the worker dies or stalls, the target it had
+// started is the culprit; a fresh worker resumes with the next target.
+//
+//	request (one line on stdin):  <first target ordinal> <yaml path>
+//	replies: "V <verdict>", "INST <0|1>", "S <t>", "R <t> <0|1>", "CTRL <0|1>", "DONE"
+//	targets: curve entries 0..nc-1, then fan entries nc..nc+nf-1
 func init() {
-	drivers["config_child"] = func(ctx *Ctx) {
+	drivers["config_worker"] = func(ctx *Ctx) {
 		debug.SetMaxStack(16 << 20)
-		if msg := configLoadYaml(ctx.Params["yaml"]); msg != "" {
-			os.Exit(11)
+		out := bufio.NewWriter(os.Stdout)
+		say := func(format string, a ...interface{}) {
+			fmt.Fprintf(out, format+"\n", a...)
+			out.Flush()
 		}
-		idx, _ := strconv.Atoi(ctx.Params["idx"])
-		code := 0
-		if ctx.Params["kind"] == "curve" {
-			configInstantiateAll(ctx.WorkDir, false)
-			code = configEvalCurve(ctx.WorkDir, idx)
-		} else {
-			o := configInstantiateAll(ctx.WorkDir, true)
-			if o.ctrlCrash {
-				os.Exit(12)
+		sc := bufio.NewScanner(os.Stdin)
+		sc.Buffer(make([]byte, 1<<16), 1<<20)
+		say("READY")
+		for sc.Scan() {
+			parts := strings.SplitN(sc.Text(), " ", 2)
+			if len(parts) != 2 {
+				continue
 			}
-			code = configRunFan(ctx.WorkDir, o, idx)
+			from, _ := strconv.Atoi(parts[0])
+			path := parts[1]
+			if msg := configLoadYaml(path); msg != "" {
+				say("V 98")
+				say("DONE")
+				continue
+			}
+			v := configClassifyErr(configuration.Validate(path))
+			say("V %d", v)
+			if v != 0 {
+				say("DONE")
+				continue
+			}
+			// from here on: the configuration object the validator has just approved
+			o := configInstantiateAll(ctx.WorkDir, false)
+			if o.instFailed {
+				say("INST 1")
+				say("DONE")
+				continue
+			}
+			say("INST 0")
+			nc := len(configuration.CurrentConfig.Curves)
+			nf := len(configuration.CurrentConfig.Fans)
+			for t := from; t < nc; t++ {
+				say("S %d", t)
+				say("R %d %d", t, configEvalCurve(ctx.WorkDir, t))
+			}
+			if p := catch(func() { o.ctrls, _ = internal.VerifInitializeFanControllers(nil, o.fanMap) }); p != "" {
+				say("CTRL 1")
+				say("DONE")
+				continue
+			}
+			say("CTRL 0")
+			for t := from; t < nc+nf; t++ {
+				if t < nc {
+					continue
+				}
+				say("S %d", t)
+				say("R %d %d", t, configRunFan(ctx.WorkDir, o, t-nc))
+			}
+			configResetGlobals()
+			say("DONE")
 		}
-		if code != 0 {
-			os.Exit(10)
-		}
-		os.Exit(0)
 	}
 }
 
-func configRunChild(ctx *Ctx, yamlPath, kind string, idx int) int {
-	cmd := exec.Command(os.Args[0], "config_child", "--work", ctx.WorkDir, "yaml="+yamlPath, "kind="+kind, "idx="+strconv.Itoa(idx))
-	var stderr bytes.Buffer
-	cmd.Stderr = &stderr
-	cmd.Stdout = nil
-	done := make(chan error, 1)
-	if err := cmd.Start(); err != nil {
-		return 1
+type configWorker struct {
+	cmd     *exec.Cmd
+	stdin   io.WriteCloser
+	lines   chan string
+	errPath string
+}
+
+var configTheWorker *configWorker
+
+func configStartWorker(ctx *Ctx) *configWorker {
+	w := &configWorker{errPath: filepath.Join(ctx.WorkDir, "worker.stderr")}
+	w.cmd = exec.Command(os.Args[0], "config_worker", "--work", ctx.WorkDir)
+	ef, err := os.Create(w.errPath)
+	if err != nil {
+		panic(err)
 	}
-	go func() { done <- cmd.Wait() }()
+	w.cmd.Stderr = ef
+	w.stdin, _ = w.cmd.StdinPipe()
+	so, _ := w.cmd.StdoutPipe()
+	if err := w.cmd.Start(); err != nil {
+		panic(err)
+	}
+	ef.Close()
+	w.lines = make(chan string, 256)
+	go func() {
+		sc := bufio.NewScanner(so)
+		for sc.Scan() {
+			w.lines <- sc.Text()
+		}
+		close(w.lines)
+	}()
+	if l, ok := w.next(20 * time.Second); !ok || l != "READY" {
+		panic("config worker did not start")
+	}
+	return w
+}
+
+// next: the next reply line; ok = false when the worker died or stalled (it is then killed)
+func (w *configWorker) next(d time.Duration) (string, bool) {
 	select {
-	case err := <-done:
-		if err == nil {
-			return 0
+	case l, ok := <-w.lines:
+		if !ok {
+			_ = w.cmd.Wait()
+			return "", false
 		}
-		if ee, ok := err.(*exec.ExitError); ok && ee.ExitCode() == 10 {
-			return 1
+		return l, true
+	case <-time.After(d):
+		_ = w.cmd.Process.Kill()
+		_ = w.cmd.Wait()
+		return "stalled", false
+	}
+}
+
+func (w *configWorker) overflowed() bool {
+	b, _ := os.ReadFile(w.errPath)
+	s := string(b)
+	return strings.Contains(s, "stack overflow") || strings.Contains(s, "goroutine stack exceeds")
+}
+
+// configRunAccepted fills Inst/Curves/Ctrl/Fans of obs from the worker's replies.
+func configRunAccepted(ctx *Ctx, path string, nc, nf int, obs *configObs) {
+	res := make([]int, nc+nf)
+	for i := range res {
+		res[i] = -1
+	}
+	from := 0
+	for attempt := 0; attempt <= nc+nf+1; attempt++ {
+		if configTheWorker == nil {
+			configTheWorker = configStartWorker(ctx)
 		}
-		s := stderr.String()
-		if strings.Contains(s, "stack overflow") || strings.Contains(s, "goroutine stack exceeds") {
-			return 2
+		w := configTheWorker
+		fmt.Fprintf(w.stdin, "%d %s\n", from, path)
+		started := -1
+		done := false
+		for !done {
+			l, ok := w.next(15 * time.Second)
+			if !ok {
+				// died (exit / fatal error) or stalled: blame the started target
+				configTheWorker = nil
+				code := 1
+				if l == "stalled" || w.overflowed() {
+					code = 2
+				}
+				if started >= 0 {
+					res[started] = code
+					from = started + 1
+				} else {
+					// died outside any target (instantiation / controller construction)
+					obs.WorkerDied = true
+					if obs.Inst == 0 && obs.WorkerVerdict == 0 && from == 0 {
+						obs.Inst = 1
+					}
+					from = nc + nf
+				}
+				break
+			}
+			f := strings.Fields(l)
+			if len(f) == 0 {
+				continue
+			}
+			switch f[0] {
+			case "V":
+				obs.WorkerVerdict, _ = strconv.Atoi(f[1])
+			case "INST":
+				obs.Inst, _ = strconv.Atoi(f[1])
+			case "CTRL":
+				obs.Ctrl, _ = strconv.Atoi(f[1])
+			case "S":
+				started, _ = strconv.Atoi(f[1])
+			case "R":
+				t, _ := strconv.Atoi(f[1])
+				res[t], _ = strconv.Atoi(f[2])
+				started = -1
+			case "DONE":
+				done = true
+			}
 		}
-		return 1
-	case <-time.After(15 * time.Second):
-		_ = cmd.Process.Kill()
-		<-done
-		return 2
+		if done || from >= nc+nf {
+			break
+		}
+	}
+	if obs.WorkerVerdict != 0 || obs.Inst != 0 {
+		return
+	}
+	for t := 0; t < nc; t++ {
+		if res[t] >= 0 {
+			obs.Curves = append(obs.Curves, res[t])
+		}
+	}
+	if obs.Ctrl == 0 {
+		for t := nc; t < nc+nf; t++ {
+			if res[t] >= 0 {
+				obs.Fans = append(obs.Fans, res[t])
+			}
+		}
 	}
 }
 
 // ---------------------------------------------------------------- one case
 type configObs struct {
-	Load     string `json:"load,omitempty"` // non-empty: the loader failed (not expected for generated inputs)
-	DecodeOK bool   `json:"decodeOk"`       // the loader produced exactly the AST the spelling stands for
-	Err      string `json:"err,omitempty"`
-	Verdict  int    `json:"verdict"`
-	Inst     int    `json:"inst"`   // accepted only: 0 = instantiated, 1 = a constructor failed
-	Curves   []int  `json:"curves"` // per curve entry: 0 returned, 1 panic, 2 endless recursion
-	Ctrl     int    `json:"ctrl"`   // 0 = controllers constructed, 1 = crash
-	Fans     []int  `json:"fans"`   // per fan entry (only when Ctrl = 0)
-	Child    bool   `json:"child,omitempty"`
+	Load          string `json:"load,omitempty"` // non-empty: the loader failed (not expected for generated inputs)
+	DecodeOK      bool   `json:"decodeOk"`       // the loader produced exactly the AST the spelling stands for
+	Err           string `json:"err,omitempty"`
+	Verdict       int    `json:"verdict"`
+	WorkerVerdict int    `json:"workerVerdict,omitempty"` // verdict of the worker's own Validate on the same file (0 expected)
+	WorkerDied    bool   `json:"workerDied,omitempty"`
+	Cli           int    `json:"cli"` // verdict class of the real `fan2go config validate -c file` (child process); -1 = not sampled
+	Inst          int    `json:"inst"`   // accepted only: 0 = instantiated, 1 = a constructor failed
+	Curves        []int  `json:"curves"` // per curve entry: 0 returned, 1 panic, 2 endless recursion
+	Ctrl          int    `json:"ctrl"`   // 0 = controllers constructed, 1 = crash
+	Fans          []int  `json:"fans"`   // per fan entry (only when Ctrl = 0)
 }
 
-func configRunConfig(ctx *Ctx, in configIn) (configObs, string) {
+func configRunConfig(ctx *Ctx, in configIn, cli bool) (configObs, string) {
 	work := ctx.WorkDir
 	yamlText := configRenderYaml(in, work)
 	path := filepath.Join(work, "case.yaml")
@@ -935,7 +1097,10 @@ func configRunConfig(ctx *Ctx, in configIn) (configObs, string) {
 	}
 	_ = os.Chmod(path, mode)
 	want := configCanon(in)
-	obs := configObs{Curves: []int{}, Fans: []int{}}
+	obs := configObs{Curves: []int{}, Fans: []int{}, Cli: -1}
+	if cli {
+		obs.Cli = configRunCli(ctx, path)
+	}
 	obs.Load = configLoadYaml(path)
 	if obs.Load == "" {
 		obs.DecodeOK = configSameAst(want, configDecodeBack(&configuration.CurrentConfig))
@@ -945,46 +1110,15 @@ func configRunConfig(ctx *Ctx, in configIn) (configObs, string) {
 			obs.Err = err.Error()
 		}
 		if err == nil {
-			if configAstHasCycle(configDecodeBack(&configuration.CurrentConfig)) {
-				// an accepted cyclic configuration: each target in its own process
-				obs.Child = true
-				o := configInstantiateAll(work, true)
-				if o.instFailed {
-					obs.Inst = 1
-				} else {
-					for i := range configuration.CurrentConfig.Curves {
-						obs.Curves = append(obs.Curves, configRunChild(ctx, path, "curve", i))
-					}
-					if o.ctrlCrash {
-						obs.Ctrl = 1
-					} else {
-						for i := range configuration.CurrentConfig.Fans {
-							obs.Fans = append(obs.Fans, configRunChild(ctx, path, "fan", i))
-						}
-					}
-				}
-			} else {
-				o := configInstantiateAll(work, true)
-				if o.instFailed {
-					obs.Inst = 1
-				} else {
-					for i := range configuration.CurrentConfig.Curves {
-						obs.Curves = append(obs.Curves, configEvalCurve(work, i))
-					}
-					if o.ctrlCrash {
-						obs.Ctrl = 1
-					} else {
-						for i := range configuration.CurrentConfig.Fans {
-							obs.Fans = append(obs.Fans, configRunFan(work, o, i))
-						}
-					}
-				}
+			configRunAccepted(ctx, path, len(configuration.CurrentConfig.Curves), len(configuration.CurrentConfig.Fans), &obs)
+			if obs.WorkerVerdict != 0 {
+				// the same file validated differently in a second process: not a deterministic verdict
+				obs.DecodeOK = false
 			}
-			configResetGlobals()
 		}
 	}
 	coq := cRec("mkCase", configCoqConfig(want), cBool(in.PermOK), cBool(obs.Load == "" && obs.DecodeOK), cZ(obs.Verdict),
-		cZ(obs.Inst), cZList(obs.Curves), cZ(obs.Ctrl), cZList(obs.Fans))
+		cZ(obs.Cli), cZ(obs.Inst), cZList(obs.Curves), cZ(obs.Ctrl), cZList(obs.Fans))
 	return obs, coq
 }
 
@@ -1426,6 +1560,9 @@ func configTagsFor(in configIn, obs configObs, gen string) []string {
 	if !obs.DecodeOK {
 		tags = append(tags, "decode-differs")
 	}
+	if obs.Cli >= 0 {
+		tags = append(tags, "cli-sampled")
+	}
 	return tags
 }
 
@@ -1434,11 +1571,15 @@ func init() {
 		// every endless recursion costs several child processes; after 12 such cases the
 		// verdict is settled (each is a failing input) and generation stops
 		hangs := 0
+		ncases := 0
 		emit := func(in configIn, gen string, extra ...string) {
 			if hangs >= 12 {
 				return
 			}
-			obs, coq := configRunConfig(ctx, in)
+			// every 40th generated case and every corpus case also goes through the real CLI entry
+			sampled := gen == "corpus" || ncases%40 == 0
+			ncases++
+			obs, coq := configRunConfig(ctx, in, sampled)
 			for _, v := range append(append([]int{}, obs.Curves...), obs.Fans...) {
 				if v == 2 {
 					hangs++
